@@ -698,7 +698,7 @@ func main() {
 	// rcvBuf below the header size: the slice expression b[:8] panics (C05_small_buffer); reported under C13
 	for rb := 0; rb < 8 && r.InfraError == ""; rb++ {
 		f := goodFrame(rnd, 8)
-		e.eval(&stream{rcvBuf: uint32(rb), segs: [][]byte{f}, kind: "smallbuf", seg: "whole", good: nil, hold: true})
+		e.eval(&stream{rcvBuf: uint32(rb), segs: [][]byte{f}, kind: "smallbuf", seg: "whole", good: nil, hold: false}) // the writer closes: a Receive that does not panic ends with EOF instead of waiting for the deadline
 	}
 	for _, b := range []string{"kind:clean", "kind:toosmall", "kind:toolarge", "kind:errframe", "kind:errgarbage", "kind:truncated", "kind:smallbuf",
 		"stop:eof", "stop:ueof", "stop:toolarge", "stop:toosmall", "stop:errf", "stop:errdecode", "stop:panic",
